@@ -1,3 +1,6 @@
 import WrglModel.Props.C04
 #print axioms Wrgl.C04_fact_emptyGuard
 #print axioms Wrgl.C04_diff_exact
+#print axioms Wrgl.C04_wf_from_C03
+#print axioms Wrgl.C04_differ_reads_stored
+#print axioms Wrgl.C04_diff_exact_of_stored
